@@ -89,3 +89,33 @@ def http_fetch(server, url, target, coords, sched):
              "status": e["status"]} for e in log]
     info_faulted = any(e["applied"] != "Normal" and e["path"].endswith("/info") for e in log)
     return res, reqs, acc_class, info_faulted
+
+
+def http_session(server, url, steps):
+    """Several fetches through ONE accessor object (state kept between them).
+    steps: list of (target, coords, script) - script: {request index: behaviour}
+    or {"all": behaviour}; the accessor is constructed under the first script.
+    Returns one (res, reqs, acc_class, info_faulted) per step."""
+    from neuroglancer_scripts import accessor
+    out = []
+    acc = None
+    acc_class = "none"
+    for k, (target, coords, script) in enumerate(steps):
+        server.arm(script)
+        try:
+            if acc is None:
+                acc = accessor.get_accessor_for_url(url)
+                acc_class = type(acc).__name__
+            if target == "info":
+                b = acc.fetch_file("info")
+            else:
+                b = acc.fetch_chunk(sd.KEY, coords)
+            res = {"st": "ok", "data": list(b), "cls": ""}
+        except Exception as e:
+            res = {"st": "exc", "data": [], "cls": type(e).__name__}
+        log = server.log()
+        reqs = [{"m": e["m"], "rng": bool(e["range"]), "applied": e["applied"], "path": e["path"],
+                 "status": e["status"]} for e in log]
+        info_faulted = any(e["applied"] != "Normal" and e["path"].endswith("/info") for e in log)
+        out.append((res, reqs, acc_class, info_faulted))
+    return out
